@@ -360,9 +360,73 @@ def alias_failures(o, res, s0, q, tgt):
         return out
     if res is o and not nothing_to_change(s0, q, tgt):
         out.append({"fail": "aliased-result", "what": "the call returned the original object although it had to change something"})
-    elif q[0] == "clone":
+    elif q[0] in ("clone", "detach"):
+        # clone() / detach() give an independent copy: no operator node and no tensor OBJECT of the original may be embedded
+        # in the result - also when no leaf requires grad (Tensor.detach() itself returns a new tensor object with its own
+        # requires_grad flag, sharing only the storage; clone() shares nothing)
+        s1 = snapshot(res)
         ids0 = {n["id"] for n in s0["nodes"]}
-        ids1 = {n["id"] for n in snapshot(res)["nodes"]}
+        ids1 = {n["id"] for n in s1["nodes"]}
         if ids0 & ids1:
-            out.append({"fail": "aliased-result", "what": "clone() shares %d operator object(s) with the original" % len(ids0 & ids1)})
+            out.append({"fail": "aliased-result", "what": "%s() shares %d operator object(s) with the original" % (q[0], len(ids0 & ids1))})
+        t0 = {t["id"] for t in s0["tensors"]}
+        t1 = {t["id"] for t in s1["tensors"]}
+        if t0 & t1:
+            out.append({"fail": "shared-component", "what": "%s() embeds %d tensor object(s) of the original in the result" % (q[0], len(t0 & t1))})
     return out
+
+
+# ------------------------------------------------------------------------------------------ two-copy sequences (P)
+
+PAIRS = [("clone", "rg"), ("clone", "add"), ("clone", "to"), ("detach", "rg"), ("detach", "to"), ("conv", "rg"), ("conv", "add"),
+         ("type", "rg"), ("type", "add")]
+
+
+def _float_tensors(o, out=None):
+    from linear_operator.operators import LinearOperator
+    out = [] if out is None else out
+    for a in itertools.chain(o._args, o._kwargs.values()):
+        if torch.is_tensor(a):
+            if a.dtype.is_floating_point:
+                out.append(a)
+        elif isinstance(a, LinearOperator):
+            _float_tensors(a, out)
+    return out
+
+
+def pair_run(o, q, src):
+    """a = copy(o); b = copy(o); mutate a; the other copy b and the source o must be unchanged.
+    copy in clone / detach / conv (to(<other dtype>)) / type (type(<other dtype>)); mutation in rg (a.requires_grad_(True)),
+    add (in-place add_ on the first floating tensor of a - not for detach, whose tensors share storage by design),
+    to (a.to(<other dtype>), result dropped).  -> (b, failure dicts about b)"""
+    other = NDT["F32" if src == "F64" else "F64"]
+    how, mut = q[1], q[2]
+
+    def copy():
+        if how == "clone":
+            return o.clone()
+        if how == "detach":
+            return o.detach()
+        if how == "conv":
+            return o.to(other)
+        return o.type(other)
+    a, b = copy(), copy()
+    sb = snapshot(b)
+    if mut == "rg":
+        a.requires_grad_(True)
+    elif mut == "add":
+        fl = _float_tensors(a)
+        if fl:
+            with torch.no_grad():
+                fl[0].add_(1)
+    else:
+        tgt = other if how in ("clone", "detach") else NDT[src]
+        a.to(tgt)
+        a.requires_grad_(True)
+    out = []
+    for f in diff_snapshot(sb, snapshot(b)):
+        g = dict(f)
+        g["fail"] = f["fail"].replace("source-changed:", "copy-coupled:")
+        g["what"] = "the second %s copy changed when the first one was mutated (%s)" % (how, mut)
+        out.append(g)
+    return b, out
